@@ -67,6 +67,21 @@ func handlerClause(p *Program, a *anchors, op string) *ast.CaseClause {
 	return nil
 }
 
+// handlerStmts: the statements that implement the handler of op — the body of
+// its clause in the dispatch loop, or of the one function that clause calls.
+func handlerStmts(p *Program, a *anchors, op string) ([]ast.Stmt, *types.Info, token.Pos) {
+	cl := handlerClause(p, a, op)
+	if cl == nil {
+		return nil, nil, token.NoPos
+	}
+	stmts, info := delegatedBody(p, p.Info(a.vmRun), cl.Body)
+	pos := cl.Pos()
+	if len(stmts) > 0 {
+		pos = stmts[0].Pos()
+	}
+	return stmts, info, pos
+}
+
 // vmFuncCalledFrom: the VM method called in the handler clause of op
 // (executeBangOperator etc.), nil when the handler is inline.
 func vmFuncCalledFrom(p *Program, a *anchors, op string) *ssa.Function {
@@ -105,23 +120,25 @@ func ruleUnary(p *Program, r *Reporter) {
 	}
 	// minus and square root: type switch on the popped operand
 	for _, spec := range []struct{ op, what string }{{"OpMinus", "negation"}, {"OpSquareRoot", "square root"}} {
-		fn := vmFuncCalledFrom(p, a, spec.op)
 		key := spec.what + " keeps the language's result type"
-		if fn == nil {
-			r.Undecided(key, "-", "cannot find the function implementing "+spec.op)
+		// the handler: its clause in the dispatch loop, or the function the
+		// clause hands over to
+		stmts, info, hpos := handlerStmts(p, a, spec.op)
+		if stmts == nil {
+			r.Undecided(key, "-", "cannot find the handler of "+spec.op)
 			continue
 		}
-		fd := p.FuncDecl(fn)
-		info := p.Info(fn)
 		var ts *ast.TypeSwitchStmt
-		ast.Inspect(fd.Body, func(n ast.Node) bool {
-			if t, ok := n.(*ast.TypeSwitchStmt); ok && ts == nil {
-				ts = t
-			}
-			return true
-		})
+		for _, st := range stmts {
+			ast.Inspect(st, func(n ast.Node) bool {
+				if t, ok := n.(*ast.TypeSwitchStmt); ok && ts == nil {
+					ts = t
+				}
+				return true
+			})
+		}
 		if ts == nil {
-			r.Undecided(key, p.Pos(fn.Pos()), "no type switch over the operand")
+			r.Undecided(key, p.Pos(hpos), "no type switch over the operand")
 			continue
 		}
 		good, why := true, ""
@@ -185,26 +202,26 @@ func ruleUnary(p *Program, r *Reporter) {
 		if !seen["Integer"] || !seen["Float"] {
 			good, why = false, "the operator does not handle both integers and floats"
 		}
-		r.Check(good, key, p.Pos(fn.Pos()), "integer and float cases", why)
+		r.Check(good, key, p.Pos(hpos), "integer and float cases", why)
 	}
 	// bang
-	fn := vmFuncCalledFrom(p, a, "OpBang")
 	key := "! is decided by the operand's dynamic type"
-	if fn == nil {
-		r.Undecided(key, "-", "cannot find the function implementing OpBang")
+	stmts, info, hpos := handlerStmts(p, a, "OpBang")
+	if stmts == nil {
+		r.Undecided(key, "-", "cannot find the handler of OpBang")
 		return
 	}
-	fd := p.FuncDecl(fn)
-	info := p.Info(fn)
 	var ts *ast.TypeSwitchStmt
-	ast.Inspect(fd.Body, func(n ast.Node) bool {
-		if t, ok := n.(*ast.TypeSwitchStmt); ok && ts == nil {
-			ts = t
-		}
-		return true
-	})
+	for _, st := range stmts {
+		ast.Inspect(st, func(n ast.Node) bool {
+			if t, ok := n.(*ast.TypeSwitchStmt); ok && ts == nil {
+				ts = t
+			}
+			return true
+		})
+	}
 	if ts == nil {
-		r.Fail(key, p.Pos(fn.Pos()), "the operand's dynamic type is not examined (no type switch): a boolean that is not the VM's own singleton is not negated")
+		r.Fail(key, p.Pos(hpos), "the operand's dynamic type is not examined (no type switch): a boolean that is not the VM's own singleton is not negated")
 		return
 	}
 	truth := singletonNames(p)
@@ -260,7 +277,7 @@ func ruleUnary(p *Program, r *Reporter) {
 	}
 	sort.Strings(diffs)
 	sort.Strings(diffs)
-	r.Check(good, key, p.Pos(fn.Pos()), "boolean → negated value, null → true, otherwise false", "the ! operator does not follow the language's table: "+strings.Join(diffs, "; "))
+	r.Check(good, key, p.Pos(hpos), "boolean → negated value, null → true, otherwise false", "the ! operator does not follow the language's table: "+strings.Join(diffs, "; "))
 }
 
 // singletonNames: package-level singletons of vm → "true"/"false"/"null"/"void".
@@ -541,8 +558,8 @@ func ruleMembership(p *Program, r *Reporter) {
 		return
 	}
 	// (1) `in` on arrays: the clause of the dispatcher deciding op == OpArrayIn
-	fd := p.FuncDecl(a.binop)
-	info := p.Info(a.binop)
+	bv := binopView(p, a)
+	fd, info := bv.fd, bv.info
 	var inClause *ast.CaseClause
 	ast.Inspect(fd.Body, func(n ast.Node) bool {
 		cl, ok := n.(*ast.CaseClause)
@@ -738,31 +755,15 @@ func ruleLogicCells(p *Program, r *Reporter) {
 	if a == nil {
 		return
 	}
-	fd := p.FuncDecl(a.binop)
-	info := p.Info(a.binop)
-	truth := singletonNames(p)
 	// the dispatcher's operands, by role: the operand popped first is the right
 	// one (it was pushed last), the operand popped second the left one
+	bv := binopView(p, a)
+	fd, info := bv.fd, bv.info
+	truth := singletonNames(p)
+	leftObj, rightObj := bv.leftObj, bv.rightObj
 	var popped []types.Object
-	ast.Inspect(fd.Body, func(n ast.Node) bool {
-		as, ok := n.(*ast.AssignStmt)
-		if !ok || len(as.Rhs) != 1 || len(as.Lhs) < 1 {
-			return true
-		}
-		if ce, ok := as.Rhs[0].(*ast.CallExpr); ok {
-			if f, ok := calleeObj(info, ce).(*types.Func); ok && f.Name() == "Pop" {
-				if id, ok := as.Lhs[0].(*ast.Ident); ok {
-					if o := info.ObjectOf(id); o != nil {
-						popped = append(popped, o)
-					}
-				}
-			}
-		}
-		return true
-	})
-	var leftObj, rightObj types.Object
-	if len(popped) >= 2 {
-		rightObj, leftObj = popped[0], popped[1]
+	if leftObj != nil && rightObj != nil {
+		popped = []types.Object{rightObj, leftObj}
 	}
 	clauses := map[string]*ast.CaseClause{}
 	ast.Inspect(fd.Body, func(n ast.Node) bool {
@@ -1766,7 +1767,8 @@ func ruleScopeSearch(p *Program, r *Reporter) {
 			continue
 		}
 		rs := sigResults(fn)
-		if len(rs) == 2 && isObjectIface(rs[0]) && isBoolType(rs[1]) && fn != envGet {
+		// (object, found) — possibly with more, such as the scope it was found in
+		if len(rs) >= 2 && isObjectIface(rs[0]) && isBoolType(rs[len(rs)-1]) && fn != envGet {
 			search = fn
 		}
 	}
@@ -1915,15 +1917,27 @@ func ruleScopeSearch(p *Program, r *Reporter) {
 					continue
 				}
 				ex, ok := iff.Cond.(*ssa.Extract)
-				if !ok || ex.Index != 1 {
+				if !ok || !isBoolType(ex.Type()) {
 					continue
 				}
 				if c, ok := ex.Tuple.(*ssa.Call); ok && c.Call.StaticCallee() == search && d.Idom().Succs[1] == d {
-					// and the found branch writes the local
+					// and the found branch writes the local: through a method of
+					// the environment, or into the scope the search reported
 					tb := d.Idom().Succs[0]
 					for _, i2 := range tb.Instrs {
 						if cc := callOf(i2); cc != nil && cc.StaticCallee() != nil && recvNamed(cc.StaticCallee(), "environment", "Environment") {
 							redirect = true
+						}
+						if mu2, ok := i2.(*ssa.MapUpdate); ok {
+							if ld, ok := mu2.Map.(*ssa.UnOp); ok {
+								if ia, ok := ld.X.(*ssa.IndexAddr); ok {
+									if u2, ok := ia.X.(*ssa.UnOp); ok && fieldKey(u2.X) == er.scopeField {
+										if ex2, ok := ia.Index.(*ssa.Extract); ok && ex2.Tuple == ex.Tuple {
+											redirect = true
+										}
+									}
+								}
+							}
 						}
 					}
 				}
